@@ -80,8 +80,16 @@ private:
 }   // namespace
 
 uint32_t nextprime(uint32_t n) {
-    PrimesGenerator gen;
-    return gen.next_prime(n);
+    //test the candidates directly instead of enumerating every prime below n
+    if (n <= 2) {
+        return 2;
+    }
+    n |= 1;
+    while (!isprime(n)) {
+        DSPLIB_VERIF_STEP();
+        n += 2;
+    }
+    return n;
 }
 
 arr_int primes(uint32_t n) {
